@@ -115,8 +115,8 @@ package hq
 //@ func producerDispatcher$1
 //@   property C15
 //@   requires globalHQ != nil && globalHQ.client != nil && batch != nil
-//@   ensures [forwarded] gocrawlhq.lastAdd(old(batch.URLs)) && (gocrawlhq.lastAddOK() || closed(done(*ctx))) // C15: every outlink the pipeline discovers is handed to the queue
+//@   ensures [forwarded] gocrawlhq.lastAdd(old(batch.URLs)) && (gocrawlhq.lastAddOK() || closed(done(ctx))) // C15: every outlink the pipeline discovers is handed to the queue
 //@ func finisherDispatcher$1
 //@   property C15
 //@   requires globalHQ != nil && globalHQ.client != nil && batch != nil
-//@   ensures [forwarded] gocrawlhq.lastDelete(old(batch.URLs), old(batch.ChildsCaptured)) && (gocrawlhq.lastDeleteOK() || closed(done(*ctx))) // C15: every finished seed is acknowledged to the queue
+//@   ensures [forwarded] gocrawlhq.lastDelete(old(batch.URLs), old(batch.ChildsCaptured)) && (gocrawlhq.lastDeleteOK() || closed(done(ctx))) // C15: every finished seed is acknowledged to the queue
